@@ -397,6 +397,63 @@ struct Victim {
         if (ag.sig > 1) oracleFail("C15:connected-signalled-twice", history);
     }
     unsigned long long pendingPrio = ~0ull;
+
+    // Malformed stream, sent from attacker address 9 AFTER the last modelled operation of a scenario (the model is not told):
+    //  (a) an authentic request/response with one bit flipped anywhere  → must cause no connectivity reaction at all
+    //      (header/attributes are covered by the HMAC, the length/cookie make it a non-STUN datagram, the trailer is MI/FINGERPRINT);
+    //  (b) a STUN-shaped datagram with random attribute bytes, (c) random bytes → no reaction unless it is a Binding message
+    //      without MESSAGE-INTEGRITY (the known finding).
+    void fuzzTail(int n)
+    {
+        for (int i = 0; i < n; i++) {
+            ag.clear();
+            const bool wasConnected = ag.comp->isConnected();
+            QByteArray b; int kind = rng.below(3);
+            bool flipAfterMi = false;
+            if (kind == 0) {
+                Dg d = rng.coin() ? mk0("req", "loc", 9000 + rng.below(100)) : mk0("rsp", "rem", vtx.isEmpty() ? 1999 : (unsigned long long)(vtx.size() - 1));
+                d.uc = rng.coin(); d.prio = 1845493759ull; d.user = 1;
+                b = forge(d, creds, vtx, QHostAddress(LOOP), ag.port(), rng);
+                const unsigned bit = rng.below(unsigned(b.size()) * 8);
+                b[int(bit / 8)] = char(b[int(bit / 8)] ^ (1 << (bit % 8)));
+                // the authenticated part ends with MESSAGE-INTEGRITY; what follows (the FINGERPRINT attribute, if any) is not covered by
+                // the HMAC and RFC 5389 15.4 tells receivers to ignore other attributes there, so a flip in that trailer may
+                // legitimately leave an authenticated message
+                int miEnd = 0;
+                for (int k = 20; k + 4 <= b.size();) { int ty = ((unsigned char)b[k] << 8) | (unsigned char)b[k + 1], ln = ((unsigned char)b[k + 2] << 8) | (unsigned char)b[k + 3]; k += 4 + 4 * ((ln + 3) / 4); if (ty == 8) { miEnd = k; break; } }
+                flipAfterMi = miEnd > 0 && int(bit / 8) >= miEnd;
+            } else if (kind == 1) {
+                static const quint16 types[] = { 0x0001, 0x0101, 0x0111, 0x0011, 0x0003, 0x0103 };
+                const int body = 4 * rng.below(17);
+                b.resize(20 + body);
+                for (auto &c : b) c = char(rng.below(256));
+                if (rng.coin()) for (int k = 20; k + 4 <= b.size(); k += 4) { b[k] = rng.coin() ? 0 : char(0x80); b[k + 2] = 0; b[k + 3] = char(4 * rng.below(3)); }
+                const quint16 t = types[rng.below(6)];
+                b[0] = char(t >> 8); b[1] = char(t & 0xff); b[2] = char(body >> 8); b[3] = char(body & 0xff);
+                b[4] = 0x21; b[5] = 0x12; b[6] = char(0xa4); b[7] = 0x42;
+            } else {
+                b.resize(1 + rng.below(60));
+                for (auto &c : b) c = char(rng.below(256));
+            }
+            printf("I fuzz %s after %s\n", b.toHex().constData(), history.c_str()); fflush(stdout);
+            gSock[3]->writeDatagram(b, QHostAddress(LOOP), ag.port());
+            Seen seen = settle();
+            const bool reaction = !seen.r.isEmpty() || !seen.c.isEmpty() || !ag.ps.isEmpty() || !ag.sel.isEmpty() || ag.sig > 0 || ag.comp->isConnected() != wasConnected;
+            stat(kind == 0 ? "fuzz_bitflip" : kind == 1 ? "fuzz_stun_shaped" : "fuzz_random");
+            if (!reaction) { oraclePass()++; continue; }
+            // which attribute types does the datagram contain?  (plain walk, independent of the library)
+            bool hasMi = false;
+            for (int k = 20; k + 4 <= b.size();) { int ty = ((unsigned char)b[k] << 8) | (unsigned char)b[k + 1], ln = ((unsigned char)b[k + 2] << 8) | (unsigned char)b[k + 3]; if (ty == 8) hasMi = true; k += 4 + 4 * ((ln + 3) / 4); }
+            const std::string rep = "fuzz " + std::string(b.toHex().constData()) + " after " + history + " => " + observe(seen);
+            // a flipped bit can also make the MESSAGE-INTEGRITY attribute vanish from the attribute walk (its type becomes an unknown
+            // attribute, or an earlier length field now swallows it): that is again a message without MESSAGE-INTEGRITY
+            if (kind == 0 && flipAfterMi) stat("fuzz_bitflip_in_unprotected_trailer_accepted");
+            else if (kind == 0 && hasMi) oracleFail("C15:bit-flipped-authentic-message-has-effect", rep);
+            else if (!hasMi) { oracleFail((b[0] & 1) ? "C15:binding-response-without-mi-accepted" : "C15:binding-request-without-mi-processed", rep); stat("fuzz_no_mi_reaction"); }
+            else oracleFail("C15:malformed-datagram-has-effect", rep);
+        }
+    }
+    static Dg mk0(const char *cls, const char *mi, unsigned long long txid) { Dg d; d.src = 9; d.cls = cls; d.mi = mi; d.txid = txid; return d; }
 };
 
 static void drainAll()
@@ -413,7 +470,7 @@ struct Scenario {
 
 // resolves "latest own transaction" placeholders (txid 999) at run time, because only then the number of the victim's
 // transactions is known
-static void runScenario(const Scenario &sc, Rng &rng)
+static void runScenario(const Scenario &sc, Rng &rng, int fuzz = 0)
 {
     drainAll();
     Victim v(sc.ctl, sc.comp, rng);
@@ -426,6 +483,7 @@ static void runScenario(const Scenario &sc, Rng &rng)
             v.apply(d.str(), &d);
         } else v.apply(o.first);
     }
+    if (fuzz) v.fuzzTail(fuzz);
     stat("scenarios");
     if (v.ag.comp->isConnected()) stat("scenarios_ending_connected");
     pump(1);
@@ -546,7 +604,34 @@ static void part1(const Args &a, Rng &rng)
                 s.add("tick");
                 runScenario(s, rng);
             }
-    stat("exhaustive_depth", 1);
+    // ---- every sequence of length `depth` over a small alphabet (datagrams + timer/time-out operations) from three base states
+    {
+        struct Sym { std::string op; Dg d; };
+        std::vector<Sym> small;
+        auto D = [&](const Dg &d) { small.push_back({ "dg", d }); };
+        D(mk(8, "req", "abs", 7000, false)); D(mk(8, "req", "abs", 7001, true));
+        D(mk(8, "rsp", "abs", 999)); D(mk(8, "err", "abs", 999));
+        D(mk(8, "req", "bad", 7002, true)); D(mk(8, "rsp", "trunc", 999)); D(mk(8, "req", "rem", 7003, true));
+        D(mk(1, "req", "loc", 7004, true, 'n', 1853817087ull, 1)); D(mk(1, "req", "loc", 7005, false, 'n', 1853817087ull, 1));
+        D(mk(1, "rsp", "rem", 999)); D(mk(1, "err", "rem", 999)); D(mk(1, "rsp", "abs", 999));
+        small.push_back({ "tick", Dg() }); small.push_back({ "timeout 0", Dg() }); small.push_back({ "timeout 1", Dg() }); small.push_back({ "connect", Dg() });
+        const int depth = thorough ? 3 : 2;
+        std::vector<int> idx(depth, 0);
+        for (int b : { 1, 2, 3 })
+            for (int ctl = 0; ctl < 2; ctl++) {
+                std::fill(idx.begin(), idx.end(), 0);
+                while (true) {
+                    Scenario s = baseState(b, ctl, comps[(b + ctl) % 3]);
+                    for (int k : idx) { if (small[k].op == "dg") s.add(small[k].d); else s.add(small[k].op); }
+                    runScenario(s, rng);
+                    stat("depth_sequences");
+                    int k = depth - 1;
+                    while (k >= 0 && ++idx[k] == (int)small.size()) idx[k--] = 0;
+                    if (k < 0) break;
+                }
+            }
+        stat("exhaustive_depth", depth); stat("small_alphabet", (long long)small.size());
+    }
     // ---- an attacker datagram at every point of an honest negotiation played by the harness
     std::vector<Dg> att;
     for (const Dg &d : alpha) if (d.src == 8 && (thorough || d.mi == "abs" || d.mi == "bad" || d.mi == "trunc")) att.push_back(d);
@@ -575,7 +660,7 @@ static void part1(const Args &a, Rng &rng)
                 }
         }
     // ---- seeded random sequences over the full alphabet
-    const int nrand = thorough ? 6000 : 900;
+    const int nrand = thorough ? 8000 : 1500;
     for (int i = 0; i < nrand; i++) {
         Scenario s; s.ctl = rng.coin(); s.comp = comps[rng.below(3)];
         const int len = 3 + rng.below(thorough ? 22 : 12);
@@ -593,7 +678,7 @@ static void part1(const Args &a, Rng &rng)
             else s.add(randomDg(rng, s.comp));
         }
         if (i < 3) { std::string t; for (auto &o : s.ops) t += (o.first == "dg" ? o.second.str() : o.first) + "; "; sample(t); }
-        runScenario(s, rng);
+        runScenario(s, rng, 1 + rng.below(4));
     }
     stat("random_sequences", nrand);
 }
